@@ -16,7 +16,9 @@ log=$dst/confirm.log; : > $log
 wt=$(mktemp -d /tmp/seedconf.XXXXXX)
 git -C /repo worktree add -q --detach $wt HEAD
 srcname=$(basename $src)
-demo_cmd=$(sed "s|/tmp/$srcname/out/nrf_stub|$dst/nrf_stub|g; s|/tmp/$srcname/out/stub|$dst/stub|g; s|/tmp/$srcname/out/demo.cpp|$dst/demo.cpp|g; s|/tmp/$srcname/out/demo|$wt/demo_bin|g; s|/tmp/$srcname|$wt|g" $dst/demo_build.txt | head -1)
+# the demo is compiled from <scratch>/out/demo.cpp, where the agent wrote it: includes relative to that place keep working
+mkdir -p $wt/out; cp $dst/demo.cpp $wt/out/demo.cpp
+demo_cmd=$(sed "s|/tmp/$srcname/out/nrf_stub|$dst/nrf_stub|g; s|/tmp/$srcname/out/stub|$dst/stub|g; s|/tmp/$srcname/out/demo.cpp|$wt/out/demo.cpp|g; s|/tmp/$srcname/out/demo|$wt/demo_bin|g; s|/tmp/$srcname|$wt|g" $dst/demo_build.txt | head -1)
 {
 echo "== demo on unchanged tree"; ( eval "$demo_cmd" ) >> $log 2>&1; $wt/demo_bin > $wt/demo0.out 2>&1; rc0=$?; tail -2 $wt/demo0.out; echo "demo exit (unchanged) = $rc0"
 echo "== apply patch"; git -C $wt apply $dst/patch.diff && echo applied || { echo "PATCH DOES NOT APPLY"; }
